@@ -237,17 +237,18 @@ class MLMCPath(MCPath):
         path_coarse = path[PT.CP, ...]
         jump_path_fine = jump_path[PT.FP, ...]
         jump_path_coarse = jump_path[PT.CP, ...]
+        # each payoff is evaluated right after its own path has been processed: a path-dependent payoff (barrier event)
+        # keeps the state of the last processed path
         payoff_underlying_from_fp = product.underlying_value(
             times, path_fine, jump_path_fine
         )
+        payoff_fine = product(payoff_underlying_from_fp)
         payoff_underlying_from_cp = product.underlying_value(
             times, path_coarse, jump_path_coarse
         )
+        payoff_coarse = product(payoff_underlying_from_cp)
         # the fine/coarse values are on the last axis (a vector payoff gives an array of shape (dimension, 2))
-        self.payoff = np.stack(
-            [product(payoff_underlying_from_fp), product(payoff_underlying_from_cp)],
-            axis=-1,
-        )
+        self.payoff = np.stack([payoff_fine, payoff_coarse], axis=-1)
         self.process_spot_level_l(path_fine, path_coarse)
         self.payoff_control_variates = control_variates.process_mlmc(
             times,
